@@ -37,6 +37,8 @@ LEAVES = [
     T.lam(T.path("a", "b"), "Any", "a", T.binop("Eq", T.path("a", "c"), b)), T.lam(a, "All", "a", T.binop("Eq", a, b)),
     T.lam(T.path("a", "b", "c"), "Any", "b", T.binop("Eq", T.path("b", "c"), T.path("a", "b"))),
     T.lam(T.I("xs"), "Any", "a", T.lam(T.path("b", "ys"), "Any", "b", T.binop("Eq", T.path("b", "p"), T.path("a", "b")))),
+    # a long path rooted at the lambda variable that equals an alias key segment for segment
+    T.lam(T.I("xs"), "Any", "a", T.binop("Eq", T.path("a", "b", "c"), T.Int(1))), T.lam(T.path("a", "b", "c"), "All", "a", T.binop("Eq", T.path("a", "b", "c", "d"), T.path("a", "b"))),
     # sibling lambdas binding the same name, then a free use of that name
     T.binop("And", T.binop("And", T.lam(a, "Any", "x", T.binop("Eq", T.path("x", "b"), T.Int(1))), T.lam(b, "All", "x", T.binop("Eq", T.I("x"), T.Int(2)))),
             T.binop("Eq", T.I("x"), T.path("x", "b"))),
